@@ -197,7 +197,7 @@ package processor
 //@   nopanic C13
 
 //@ func (p *Processor) handleInboundSignedVAAWithQuorum(ctx context.Context, m *gossipv1.SignedVAAWithQuorum)
-//@   props C13 C01 C02 C07
+//@   props C13 C01 C02 C07 C06
 //@   ensures [never-publishes] unchanged("chan") && unchanged("vaaState.*") && unchanged("map[string]*vaaState")
 //@   requires Inv(p) && m != nil
 //@   requires InvSig(p)
